@@ -68,3 +68,7 @@ Fixpoint first_bad (n : node) (l : list (op * obs)) (i : nat) : option (nat * re
       if b then match n' with Some n1 => first_bad n1 r (S i) | None => None end
       else Some (i, step n op)
   end.
+
+(* link between operands that are nodes, never-run Models or lists: observed = a ValueError was raised at link time *)
+Definition chk_links (senders receivers : list node) (raised : bool) : bool :=
+  match link_check senders receivers with ROk _ => negb raised | RErr _ => raised end.
